@@ -1636,7 +1636,7 @@ class InterpComp:
         want: 'any' / 'all' -> Bool term; 'elems' -> (vars, guard(with ifs), value) for further use."""
         node, fr = gen.node, gen.frame
         if len(node.generators) != 1:
-            raise Unsupported('nested generators over symbolic collections')
+            return self._quantified_gen_nested(node, fr, want)
         g = node.generators[0]
         coll = self.ev(g.iter, fr)
         items = self.iter_const(coll)
@@ -1662,6 +1662,36 @@ class InterpComp:
             self.run.pop()
             self.mode = saved
         return ('sym', vars_, z3.And(conds) if len(conds) > 1 else conds[0], elt, coll)
+
+    def _quantified_gen_nested(self, node, fr, want):
+        """several `for` clauses, all over symbolic collections (later ones may depend on earlier targets): one bound
+        variable group per clause, the guard is the conjunction; the order of the elements is not described (coll=None)"""
+        sub = Frame(fr.fi, fr.module, dict(fr.vars), fr.selfv, fr.defcls)
+        saved = self.mode
+        if self.mode == EXEC:
+            self.mode = GENERIC
+        self.run.push()
+        try:
+            vars_all, conds = [], []
+            for g in node.generators:
+                coll = self.ev(g.iter, sub)
+                if self.iter_const(coll) is not None:
+                    raise Unsupported('nested generators mixing constant and symbolic collections')
+                vars_, guard, val = self.generic_iter(coll)
+                self.run.assume(guard)
+                self.assume_domain(val)
+                self.bind_target(g.target, val, sub)
+                vars_all.extend(vars_)
+                conds.append(guard)
+                for c in g.ifs:
+                    ct = self.as_bool(self.truthy(self.ev(c, sub)))
+                    conds.append(ct)
+                    self.run.assume(ct)
+            elt = self.ev(node.elt, sub) if want != 'guard' else None
+        finally:
+            self.run.pop()
+            self.mode = saved
+        return ('sym', vars_all, z3.And(conds) if len(conds) > 1 else conds[0], elt, None)
 
     def eval_gen_const(self, items, g, node, fr):
         """explicit evaluation of a comprehension over a sequence of known length (exec mode forks as python would)"""
